@@ -132,7 +132,69 @@ def run(tier, seed):
         rep.violation(f"{hostile[i][2]}: hostile decode event rejected by Trace_Codec (res={hobs[i].get('res')})", {"fam": "hostile", "cmd": send[i], "what": hostile[i][2]},
                       expected="Dec with the configured limits (AvroBinary.tla)", observed=hobs[i])
     ntr = codec.validate_events("Trace_Codec", "Trace_Codec.cfg", events, scope_path, rej, chunk=150)
+    # ---- D: the limits hold for IGNORING targets too: recursive schemas nested around the depth limit, sequences around max_seq, with the
+    #         recursive part (or everything) skipped; judged by Trace_Skip with the event's limits (a valid encoding that only a limit
+    #         refuses must be refused when skipped as well)
+    sk_scope, sk_cmds, sk_si, sk_paths = [], [], [], []
+    LONG = lambda x: {"t": "long", "v": pyavro.limbs(x)}     # noqa: E731
+    rm = scopes.flatten(scopes.rec("RM", [("v", scopes.prim("long")), ("m", scopes.mp(scopes.ref("RM")))]))["nodes"]
+    rt = scopes.flatten(scopes.rec("RT", [("v", scopes.prim("long")), ("kids", scopes.arr(scopes.ref("RT")))]))["nodes"]
+    rl = scopes.flatten(scopes.rec("RL", [("v", scopes.prim("long")), ("next", scopes.un(scopes.prim("null"), scopes.ref("RL")))]))["nodes"]
+
+    def nest(kind, d):
+        if kind == "m":
+            v = {"t": "rec", "es": [LONG(0), {"t": "map", "kv": []}]}
+            for i in range(d):
+                v = {"t": "rec", "es": [LONG(i + 1), {"t": "map", "kv": [[[107], v]]}]}
+        elif kind == "t":
+            v = {"t": "rec", "es": [LONG(0), {"t": "arr", "es": []}]}
+            for i in range(d):
+                v = {"t": "rec", "es": [LONG(i + 1), {"t": "arr", "es": [v]}]}
+        else:
+            v = {"t": "rec", "es": [LONG(0), {"t": "un", "b": 0, "x": {"t": "null"}}]}
+            for i in range(d):
+                v = {"t": "rec", "es": [LONG(i + 1), {"t": "un", "b": 1, "x": v}]}
+        return v
+    for G, kind in ((rm, "m"), (rt, "t"), (rl, "l")):
+        sk_scope.append({"sid": f"skip_{kind}", "nodes": G})
+        for L in (6, 9):
+            for d in range(0, 2 * L + 3):
+                b = pyavro.encode(G, 1, nest(kind, d))
+                for path in ([], [1]):
+                    for rd in ({"kind": "slice"}, {"kind": "chunks", "sched": [3]}):
+                        sk_cmds.append({"op": "de", "id": len(sk_cmds), "schema": {"nodes": G}, "bytes": b, "reader": rd, "ignore": [path],
+                                        "limits": {"depth": L, "max_seq": 1000, "max_alloc": 1 << 16}})
+                        sk_si.append(len(sk_scope))
+                        sk_paths.append(path)
+    # a long array / map of records, skipped, around max_seq
+    for n in (3, 4, 5, 9):
+        for layout_rng in (None, random.Random(n)):
+            v = {"t": "rec", "es": [LONG(1), {"t": "arr", "es": [nest("t", 0) for _ in range(n)]}]}
+            b = pyavro.encode(rt, 1, v, layout_rng)
+            for path in ([], [1]):
+                sk_cmds.append({"op": "de", "id": len(sk_cmds), "schema": {"nodes": rt}, "bytes": b, "reader": {"kind": "slice"}, "ignore": [path],
+                                "limits": {"depth": 32, "max_seq": 4, "max_alloc": 1 << 16}})
+                sk_si.append(2)
+                sk_paths.append(path)
+    sk_obs = common.run_harness(sk_cmds, per_cmd_timeout=30)
+    sk_events = []
+    for si, c, o, pth in zip(sk_si, sk_cmds, sk_obs, sk_paths):
+        if o.get("res") not in ("ok", "err"):
+            rep.violation(f"ignoring target on a nested value (limits {c['limits']}): did not return: {o.get('res')}", {"fam": "skip_limits", "cmd": c}, observed=o)
+            continue
+        ev = {"ev": "skip", "si": si, "bytes": c["bytes"], "path": pth, "res": o["res"], "depth": c["limits"]["depth"], "maxseq": c["limits"]["max_seq"]}
+        if o["res"] == "ok":
+            ev["value"], ev["consumed"] = o["value"], o["consumed"]
+        sk_events.append((ev, c, o))
+    sk_scope_path = codec.write_scope(sk_scope, "c04-skip")
+
+    def sk_rej(i):
+        ev, c, o = sk_events[i]
+        rep.violation(f"ignoring target, limits {c['limits']}, {len(c['bytes'])} bytes: answered {o['res']} - not what Dec with these limits allows (Trace_Skip)",
+                      {"fam": "skip_limits", "cmd": c}, expected="a valid encoding refused only by a limit is refused when skipped too", observed=o)
+    n_sk = codec.validate_events("Trace_Skip", "Trace_Skip.cfg", [e for e, _, _ in sk_events], sk_scope_path, sk_rej)
     cov = {
+        "skip_with_limits_events": len(sk_events),
         "states": mc["distinct"], "transitions": mc["states"], "traces_validated_against_impl": ntr,
         "evaluations": len(cmds) + len(hostile), "distinct_nontrivial": len(take) + len(hostile),
         "rule": "model: ALL byte strings over {00,01,02,03,04,7F,80,FF} of length <= 3 (4 thorough) x 8 schemas (zero-byte elements, nested collections, the "
